@@ -106,7 +106,7 @@ PROPS = {
     },
     "C15": {
         "streams": ["unpack"],
-        "theorems": "C15_tree_archive_materialised (every archive listing a tree of regular files, directories and links that stay inside, unpacked into an empty directory, yields exactly that tree: contents, permissions, times, link targets; directory metadata applied after the contents), C15_unsupported_fails, C15_success_means_all_supported (all entry lists); for arbitrary entry orders, repeats and links the sequential-reading semantics is the executable model itself, compared with the implementation (whole final tree) and with an independent Go reference interpreter; C15_sequential_reading is a concrete instance with repeats",
+        "theorems": "C15_tree_archive_materialised (every archive listing a tree of regular files, directories and links that stay inside, unpacked into an empty directory, yields exactly that tree: contents, permissions, times, link targets; directory metadata applied after the contents), C15_last_file_entry_wins, C15_last_of_many_file_entries (a regular-file entry whose path already holds a regular file of any content, permissions - also read-only or none - and time, under either privilege, leaves exactly its own content, permissions and time there; so of any number of entries for one file path the last one decides; Slug/LastWins.v), C15_unsupported_fails, C15_success_means_all_supported (all entry lists); for arbitrary entry orders, repeats and links the sequential-reading semantics is the executable model itself, compared with the implementation (whole final tree) and with an independent Go reference interpreter; C15_sequential_reading is a concrete instance with repeats",
         "assumptions": _FS_ASSUME + ["partial: for archives with repeated paths, children before parents, or links that leave and re-enter, 'the model's unpack equals a declarative last-writer-wins tree' is not proved as a theorem; it is checked per run by the reference interpreter on the implementation"],
     },
     "C03": {
@@ -158,11 +158,11 @@ PROPS = {
     },
     "C09": {
         "streams": ["reopen", "manifest", "pack", "unpack"],
-        "theorems": "C09_reopen_is_a_function_of_the_manifest, C09_root_independent (accessors of open_dir do not depend on the root; forward lookups are the root followed by the same relative components; reverse lookups of corresponding paths agree), C09_reverse_choice_is_deterministic, C09_version_visiting_order_irrelevant (the versions object of a registry entry is decoded into a Go map and visited in no fixed order: every permutation of its members gives the same map of source addresses and deprecation notes, or is refused alike); the archive leg composes C02 (pack/unpack round trip: PARTIAL there) with these",
+        "theorems": "C09_reopen_is_a_function_of_the_manifest, C09_root_independent (accessors of open_dir do not depend on the root; forward lookups are the root followed by the same relative components; reverse lookups of corresponding paths agree), C09_reverse_choice_is_deterministic, C09_reverse_lookup_visiting_order_irrelevant (the reverse lookup walks a Go map in no fixed order: its choice is the minimum of a strict total order on printed addresses, so every visiting order gives the same answer; Bundle/BestKey.v), C09_version_visiting_order_irrelevant (the versions object of a registry entry is decoded into a Go map and visited in no fixed order: every permutation of its members gives the same map of source addresses and deprecation notes, or is refused alike); the archive leg composes C02 (pack/unpack round trip: PARTIAL there) with these",
         "assumptions": _ADDR_ASSUME + _PACK_ASSUME + ["modelled, not verified: encoding/json (MarshalIndent / Unmarshal of the manifest), crypto/sha256 (checksum compared on the implementation only), dirhash; partial: 'the same files after WriteArchive + ExtractArchive' rests on C02's round trip, which is proved piecewise and decided per run by packing, extracting and comparing the trees of real bundles; file times are compared to the archive's one-second resolution"],
     },
     "C10": {
-        "streams": ["prepare", "ignore"],
+        "streams": ["prepare", "ignore", "bundle"],
         "theorems": "C10_prepared_package_is_sane (every file system, rule set, working directory and fuel: an accepted package holds only files, directories and relative links resolving physically to regular files inside it; nothing excluded is left; only deletions happened), C10_only_excluded_removed, C10_special_file_fails, C10_link_must_resolve_inside (escaping and dangling links fail the build), C10_outside_untouched, C10_resolution_monotone_under_deletion; by an invariant over the removal/validation walk (every surviving entry was validated in a file system of which the final one is a part) and monotonicity of path resolution under deletion",
         "assumptions": _PACK_ASSUME + ["modelled, not verified: filepath.Walk (names read before the walk function sees the directory), os.RemoveAll, filepath.EvalSymlinks (as the kernel's resolution: at most 40 links, the model's bound; Go's own limit is 255), filepath.IsLocal/Rel/Join/Dir, dirhash.HashDir (every non-directory opened and read; names with a newline refused), os.Rename / coalescing with an existing directory of the same hash (the final name is not modelled: the package tree is compared, the 'no .tmp- left' and 'outside untouched' clauses are also checked on the real arena); the builder runs as root in a chroot whose root is the model's root; validated per run: the whole chroot is snapshotted at the moment of the fetch and the final package tree compared with the model's",
                         "the surrounding state machine (when packages are fetched, poisoning on error) is Bundle/Builder.v (C08/C12/C14)"],
